@@ -56,6 +56,10 @@ func init() {
 		e.udpSocks[o] = &udpSock{port: 40000 + e.udpNextPort}
 		return Tuple{Ptr{Obj: o}, Iface{}}
 	})
+	reg("internal/bytealg.MakeNoZero", func(e *Exec, fn *ssa.Function, a []Value) Value {
+		n := int(e.concretize(a[0].(*sym.Term), "make-len"))
+		return e.newByteSlice(make([]*sym.Term, 0, 0)[:0:0]).withZeros(e, n)
+	})
 	reg("runtime.GOMAXPROCS", func(e *Exec, fn *ssa.Function, a []Value) Value { return e.tb.Const(64, 1) })
 	reg("runtime.Gosched", func(e *Exec, fn *ssa.Function, a []Value) Value { e.runPendingTasks(); return nil })
 	reg("(*net.UDPConn).LocalAddr", func(e *Exec, fn *ssa.Function, a []Value) Value {
@@ -181,4 +185,12 @@ func init() {
 		return &ChanObj{ID: e.nextObj, Cap: 1, Buf: []Value{e.mkTime(e.tb.Const(64, 0), e.tb.Const(64, 0))}}
 	})
 	_ = fmt.Sprint
+}
+
+func (s Slice) withZeros(e *Exec, n int) Slice {
+	b := make([]*sym.Term, n)
+	for i := range b {
+		b[i] = e.byteConst(0)
+	}
+	return e.newByteSlice(b)
 }
